@@ -116,12 +116,18 @@ def check_case(ctx, case):
     try:
         t1 = parse(prov, s1, multiple)
     except Exception as e:
-        ctx.fail("reparse-raises", observed=(f"{type(e).__name__}: {e}"[:300], s1[:600]), expected="the same tree")
+        ctx.fail("reparse-raises", observed=(f"{type(e).__name__}: {e}"[:300], s1[:600]), expected="the same tree", key=classify_reparse_raises(prov, s1, o0))
         return
-    o1 = [tree.norm_texts(tree.obs(c)) for c in t1]
+    raw1 = [tree.obs(c) for c in t1]
+    o1 = [tree.norm_texts(o) for o in raw1]
     if o1 != o0:
         d = next((tree.diff(a, b) for a, b in zip(o1, o0) if a != b), f"{len(o1)} vs {len(o0)} components")
-        ctx.fail("unstable-tree", observed=(d[:500], s1[:800]), expected="obs(parse(ser(parse(x)))) == obs(parse(x))", key=classify_unstable(prov, s1, o0, o1))
+        key = classify_unstable(prov, s1, o0, o1)
+        if key is None and raw1 == o0:
+            # the second tree is exactly the first after ONE application of the documented normalisation (that is what C07 promises),
+            # but that result is not a fixed point of it: CR CR LF -> CR LF -> LF, one CR less per pass
+            key = "text-cr-before-crlf-renormalised"
+        ctx.fail("unstable-tree", observed=(d[:500], s1[:800]), expected="obs(parse(ser(parse(x)))) == obs(parse(x))", key=key)
         return
     try:
         s2 = ser(t1)
@@ -133,6 +139,24 @@ def check_case(ctx, case):
         ctx.fail("unstable-bytes", observed=(s2.split(b"\r\n")[k][:200] if k >= 0 else len(s2)), expected=(s1.split(b"\r\n")[k][:200] if k >= 0 else len(s1)))
         return
     ctx.count("A:stable")
+
+
+def classify_reparse_raises(prov, s1, o0):
+    """The re-parse of correctly written output fails: attributed to the placeholder split iff (1) the ideal reading of the output is
+    the first tree (it was written correctly) and (2) the reader with the placeholder model switched on rejects it as well
+    (a parameter value ending in a backslash: the model turns backslash+';' / backslash+':' into a placeholder and loses the delimiter)."""
+    try:
+        text = s1.decode("utf-8")
+        ideal = refparse.parse(text, prov, refparse.split_lenient, two_pass=False)
+        if [tree.strip_zones(tree.norm_texts(o)) for o in ideal] != [tree.strip_zones(o) for o in o0]:
+            return None
+        try:
+            refparse.parse(text, prov, refparse.split_defect, two_pass=False)
+        except refparse.RefReject:
+            return "parts-placeholder"
+    except Exception:
+        return None
+    return None
 
 
 def classify_unstable(prov, s1, o0, o1):
